@@ -17,6 +17,16 @@ A case (JSON):
   exit     {"k": "normal"|"exception"|"cancel-asyncio"|"cancel-anyio", "at": ticks after entering}
   pause    ticks after entering during which the consumer does not read the read stream
            (back-pressure: the transport's read buffer fills up); default 0
+Optional: per request "form" ("dict" | "model" = a JSONRPCMessage object, as send_message writes |
+"garbage" = an object that is no message), "params", "method", "answer" (the server's answer:
+{"kind":"result","payload":{..}} | {"kind":"error","code","message","data"}), "extra" (extra members of
+the answer); post "body200" ("rpc"|"nonjson"|"empty"), "text", "exc_text"; case "write_mode"
+("nowait" | "await": one client task awaits every send = back-pressure towards the producer),
+"warm" (a first session on the same parameters object, entered and left, before the observed one),
+"api" ("sse_client" | "fallback" = try_sse_with_fallback), "params" (headers / bearer_token of
+SSEParameters), "close_raises" (closing the GET response stream raises).
+conn.at, chunk ticks and close are relative to the arrival of the GET; enter.t is relative to the
+start of the (observed) session.
 
 Everything scripted is injected by the loop (`loop.at`), never by timer tasks.
 """
@@ -24,6 +34,8 @@ from __future__ import annotations
 
 import asyncio
 import collections
+import contextlib
+import io
 import json
 
 from . import vloop
@@ -69,8 +81,25 @@ def guarded_run(main, tie="events"):
     return holder["loop"].deadlock
 
 
-def rpc_result(rid, tag):
-    return {"jsonrpc": "2.0", "id": rid, "result": {"tag": tag}}
+def answer_msg(r, which):
+    """the server's answer to request `r` in the POST reply ("body"), on the event stream ("ev") or
+    in the body of another status ("post")"""
+    rid = r["id"]
+    a = r.get("answer")
+    if which == "post" and a is None:
+        m = {"jsonrpc": "2.0", "id": rid, "error": {"code": -32001, "message": "scripted"}}
+    elif a is None:
+        m = {"jsonrpc": "2.0", "id": rid, "result": {"tag": which}}
+    elif a.get("kind") == "error":
+        err = {"code": a.get("code", 0), "message": a.get("message", "")}
+        if "data" in a:
+            err["data"] = a["data"]
+        m = {"jsonrpc": "2.0", "id": rid, "error": err}
+    else:
+        m = {"jsonrpc": "2.0", "id": rid, "result": a.get("payload", {})}
+    for k, v in (r.get("extra") or {}).items():
+        m[k] = v
+    return m
 
 
 def sse_event_bytes(obj, event="message") -> bytes:
@@ -89,13 +118,21 @@ def cut_bytes(b: bytes, cuts):
     return [x for x in out if x != b""] or [b""]
 
 
+def id_key(v):
+    return json.dumps(v, sort_keys=True)
+
+
+class Garbage:
+    """an object that is neither a dict nor a model"""
+
+
 def run_case(case):
     import httpx
     import anyio
 
     obs = {"posts": [], "delivered": [], "enter": None, "harness_errors": []}
     clients = []
-    given = []
+    streams = []
 
     def dump(m):
         if hasattr(m, "model_dump"):
@@ -103,17 +140,20 @@ def run_case(case):
         return m
 
     async def main():
-        from chuk_mcp.transports.sse.sse_client import sse_client
+        from chuk_mcp.transports.sse.sse_client import sse_client, try_sse_with_fallback
         from chuk_mcp.transports.sse.parameters import SSEParameters
+        from chuk_mcp.protocol.messages.json_rpc_message import JSONRPCMessage
 
         loop = asyncio.get_running_loop()
         me = asyncio.current_task()
+        state = {}
 
         class ScriptedStream(httpx.AsyncByteStream):
             def __init__(self):
                 self.q = collections.deque()
                 self.waiter = None
                 self.closed = False
+                streams.append(self)
 
             def push(self, item):
                 self.q.append(item)
@@ -132,15 +172,16 @@ def run_case(case):
 
             async def aclose(self):
                 self.closed = True
-
-        sse_stream = ScriptedStream()
+                if case.get("close_raises"):
+                    raise RuntimeError("scripted failure while closing the event stream")
 
         class Writer:
             """The server's single byte stream: scripted (static) chunks are released in order at
             their ticks; a response event (dynamic) is written only between two complete static
             events and is never interleaved with anything else."""
 
-            def __init__(self, bounds):
+            def __init__(self, stream, bounds):
+                self.stream = stream
                 self.bounds = set(bounds) | {0}
                 self.pos = 0
                 self.busy = False
@@ -161,7 +202,7 @@ def run_case(case):
                         b = self.static.popleft()
                         if b is not None:
                             self.pos += len(b)
-                        sse_stream.push(b)
+                        self.stream.push(b)
                     elif self.dynamic and self.pos in self.bounds:
                         pieces, gap = self.dynamic.popleft()
                         self.busy = True
@@ -169,7 +210,7 @@ def run_case(case):
                         for i, piece in enumerate(pieces):
                             last = i == len(pieces) - 1
                             if i == 0:
-                                sse_stream.push(piece)
+                                self.stream.push(piece)
                                 if last:
                                     self.busy = False
                             else:
@@ -179,15 +220,17 @@ def run_case(case):
 
             def _piece(self, piece, last):
                 def f():
-                    sse_stream.push(piece)
+                    self.stream.push(piece)
                     if last:
                         self.busy = False
                         self.pump()
                 return f
 
-        writer = Writer(case.get("bounds", []))
         conn = case.get("conn") or {"k": "ok", "at": 0}
-        reqs = {r["id"]: r for r in case.get("reqs", [])}
+        reqs = {}
+        for r in case.get("reqs", []):
+            if r.get("id") is not None:
+                reqs.setdefault(id_key(r["id"]), collections.deque()).append(r)
 
         def at_future(tick):
             f = loop.create_future()
@@ -200,39 +243,52 @@ def run_case(case):
 
         async def handler(request: "httpx.Request"):
             if request.method == "GET":
-                obs["get"] = [loop.ticks, str(request.url)]
+                t_get = loop.ticks
+                obs["get"] = [t_get, str(request.url)]
                 if conn["k"] == "hang":
                     await loop.create_future()
-                await at_future(conn.get("at", 0))
+                await at_future(t_get + conn.get("at", 0))
                 if conn["k"] == "error":
                     raise httpx.ConnectError("scripted connect error", request=request)
                 if conn["k"] == "status":
                     return httpx.Response(conn["code"], text="scripted status")
+                stream = ScriptedStream()
+                w = Writer(stream, case.get("bounds", []))
+                state["writer"] = w
                 for tick, hx in case.get("chunks", []):
-                    loop.at(max(tick, loop.ticks), (lambda b: (lambda: writer.release_static(b)))(bytes.fromhex(hx)))
+                    loop.at(max(t_get + tick, loop.ticks), (lambda b, w=w: (lambda: w.release_static(b)))(bytes.fromhex(hx)))
                 if case.get("close") is not None:
-                    loop.at(max(case["close"], loop.ticks), lambda: writer.release_static(None))
-                given.append(loop.ticks)
-                return httpx.Response(200, headers={"content-type": "text/event-stream"}, stream=sse_stream)
+                    loop.at(max(t_get + case["close"], loop.ticks), lambda w=w: w.release_static(None))
+                stream.given = True
+                return httpx.Response(200, headers={"content-type": "text/event-stream"}, stream=stream)
             # POST
             try:
                 body = json.loads(request.content.decode("utf-8"))
             except Exception:
                 body = None
             rid = body.get("id") if isinstance(body, dict) else None
-            obs["posts"].append([loop.ticks, str(request.url), rid, (body or {}).get("method")])
-            r = reqs.get(rid) if isinstance(rid, str) else None
+            obs["posts"].append([loop.ticks, str(request.url), rid, (body or {}).get("method") if isinstance(body, dict) else None])
+            q = reqs.get(id_key(rid)) if rid is not None else None
+            r = q.popleft() if q else None
             if r is None:
+                # notification (or an id the script does not know): plain acknowledgement, or the
+                # scripted failure of a notification POST
+                nf = case.get("notif_post")
+                if nf == "exc":
+                    raise httpx.ReadError("scripted POST failure", request=request)
+                if isinstance(nf, int):
+                    return httpx.Response(nf, text="scripted")
                 return httpx.Response(202, text="Accepted")
             now = loop.ticks
             ev = r.get("ev")
             post = r["post"]
+            w = state.get("writer")
 
             def sched_event():
-                if ev is not None:
-                    data = sse_event_bytes(rpc_result(rid, "ev"), "message" if ev.get("typed", True) else None)
+                if ev is not None and w is not None:
+                    data = sse_event_bytes(answer_msg(r, "ev"), "message" if ev.get("typed", True) else None)
                     pieces = cut_bytes(data, ev.get("cuts", []))
-                    loop.at(now + ev["d"], lambda: writer.write_event(pieces, ev.get("gap", 0)))
+                    loop.at(now + ev["d"], lambda: w.write_event(pieces, ev.get("gap", 0)))
             if ev is not None and ev.get("after_post_at_tie"):
                 done = at_future(now + post["d"])
                 sched_event()
@@ -242,9 +298,14 @@ def run_case(case):
             await done
             k = post["k"]
             if k == "exc":
-                raise httpx.ReadError("scripted POST failure", request=request)
+                raise httpx.ReadError(post.get("exc_text", "scripted POST failure"), request=request)
             if k == "200":
-                return httpx.Response(200, json=rpc_result(rid, "body"))
+                b200 = post.get("body200", "rpc")
+                if b200 == "nonjson":
+                    return httpx.Response(200, text="<html>ok</html>")
+                if b200 == "empty":
+                    return httpx.Response(200)
+                return httpx.Response(200, json=answer_msg(r, "body"))
             if k == "202":
                 return httpx.Response(202, text="Accepted")
             code = post.get("code", 500)
@@ -252,11 +313,11 @@ def run_case(case):
             if b == "empty":
                 return httpx.Response(code)
             if b == "text":
-                return httpx.Response(code, text="Internal Server Error")
+                return httpx.Response(code, text=post.get("text", "Internal Server Error"))
             if b == "detail":
                 return httpx.Response(code, json={"detail": "Internal Server Error"})
             if b == "rpc":
-                return httpx.Response(code, json={"jsonrpc": "2.0", "id": rid, "error": {"code": -32001, "message": "scripted"}})
+                return httpx.Response(code, json=answer_msg(r, "post"))
             return httpx.Response(code, text=str(b))
 
         RealClient = httpx.AsyncClient
@@ -271,6 +332,17 @@ def run_case(case):
         reader_task = None
         canceller = []
         ex = case.get("exit") or {"k": "normal", "at": 0}
+        pk = dict(case.get("params") or {})
+        try:
+            params = SSEParameters(url=case.get("base", "http://h.test"), timeout=case["T"] * vloop.TICK, **pk)
+            params_error = None
+        except Exception as e:  # parameters the library refuses: creating the context is what raises
+            params, params_error = None, e
+
+        def client_cm():
+            if params_error is not None:
+                raise params_error
+            return sse_client(params)
 
         async def reader(rs, start):
             try:
@@ -282,45 +354,89 @@ def run_case(case):
             except anyio.ClosedResourceError:
                 return "closed"
 
+        def build(r):
+            if r.get("form") == "garbage":
+                return Garbage()
+            msg = {"jsonrpc": "2.0", "method": r.get("method", "tools/list")}
+            if r.get("id") is not None:
+                msg["id"] = r["id"]
+            if "params" in r:
+                msg["params"] = r["params"]
+            if r.get("form") == "model":
+                return JSONRPCMessage.model_validate(msg)
+            return msg
+
+        async def warm():
+            """a first session on the same parameters object: entered and left"""
+            ts = loop.ticks
+            try:
+                async with client_cm():
+                    obs["warm"] = {"k": "yielded", "t": loop.ticks - ts}
+                    await at_future(loop.ticks + 2)
+            except Exception as e:
+                obs["warm"] = {"k": "raised", "t": loop.ticks - ts, "exc": type(e).__name__}
+            for _ in range(5):
+                await asyncio.sleep(0)
+
         async def session():
             nonlocal reader_task
-            params = SSEParameters(url=case.get("base", "http://h.test"), timeout=case["T"] * vloop.TICK)
+            ts = loop.ticks
             try:
-                async with sse_client(params) as (rs, ws):
-                    obs["enter"] = {"k": "yielded", "t": loop.ticks}
+                if case.get("api") == "fallback":
+                    cm = await try_sse_with_fallback(case.get("base", "http://h.test"), timeout=case["T"] * vloop.TICK, **pk)
+                else:
+                    cm = client_cm()
+                async with cm as (rs, ws):
+                    obs["enter"] = {"k": "yielded", "t": loop.ticks - ts}
                     obs["rs"], obs["ws"] = rs, ws
                     reader_task = asyncio.create_task(reader(rs, loop.ticks + case.get("pause", 0)))
 
                     def mk_write(r):
                         def f():
                             try:
-                                msg = {"jsonrpc": "2.0", "method": r.get("method", "tools/list")}
-                                if r.get("id") is not None:
-                                    msg["id"] = r["id"]
-                                ws.send_nowait(msg)
+                                ws.send_nowait(build(r))
                             except Exception as e:  # closed already: the request is simply not sent
                                 obs.setdefault("write_errors", []).append(type(e).__name__)
                         return f
                     t0 = loop.ticks
                     if canceller:
                         loop.at(t0 + ex["at"], canceller[0])
-                    for r in case.get("reqs", []):
-                        loop.at(t0 + r["at"], mk_write(r))
-                    if canceller:
-                        await loop.create_future()  # until cancelled from outside
-                    await at_future(t0 + ex["at"])
-                    obs["exit_t"] = loop.ticks
-                    if ex["k"] == "exception":
-                        raise Boom()
+                    wtask = None
+                    if case.get("write_mode") == "await":
+                        async def producer():
+                            try:
+                                for r in sorted(case.get("reqs", []), key=lambda r: r["at"]):
+                                    if t0 + r["at"] > loop.ticks:
+                                        await at_future(t0 + r["at"])
+                                    await ws.send(build(r))
+                                obs["produced"] = loop.ticks - t0
+                            except Exception as e:
+                                obs.setdefault("write_errors", []).append(type(e).__name__)
+                        wtask = asyncio.create_task(producer())
+                    else:
+                        for r in case.get("reqs", []):
+                            loop.at(t0 + r["at"], mk_write(r))
+                    try:
+                        if canceller:
+                            await loop.create_future()  # until cancelled from outside
+                        await at_future(t0 + ex["at"])
+                        obs["exit_t"] = loop.ticks - t0
+                        if ex["k"] == "exception":
+                            raise Boom()
+                    finally:
+                        if wtask is not None and not wtask.done():
+                            wtask.cancel()
             except Boom:
                 obs["body_exc"] = True
             except Exception as e:
                 if obs["enter"] is None:
-                    obs["enter"] = {"k": "raised", "t": loop.ticks, "exc": type(e).__name__}
+                    obs["enter"] = {"k": "raised", "t": loop.ticks - ts, "exc": type(e).__name__}
                 else:
                     obs["exit_exc"] = type(e).__name__
 
         try:
+            if case.get("warm"):
+                await warm()
             if ex["k"] == "cancel-asyncio":
                 t = asyncio.create_task(session())
                 canceller.append(t.cancel)
@@ -352,7 +468,7 @@ def run_case(case):
             after["tasks"] = sorted(getattr(t.get_coro(), "__qualname__", "?") for t in leaked)
             after["clients_open"] = sum(1 for c in clients if not c.is_closed)
             after["clients"] = len(clients)
-            after["sse_stream_open"] = bool(given) and not sse_stream.closed
+            after["sse_stream_open"] = any(getattr(st, "given", False) and not st.closed for st in streams)
             ws = obs.get("ws")
             if ws is not None:
                 try:
@@ -381,7 +497,9 @@ def run_case(case):
     import httpx as _httpx
     real_client = _httpx.AsyncClient
     try:
-        dl = guarded_run(main, tie=case.get("tie", "events"))
+        # the code under test prints tracebacks of swallowed exceptions to stderr
+        with contextlib.redirect_stderr(io.StringIO()):
+            dl = guarded_run(main, tie=case.get("tie", "events"))
         if dl is not None:
             # the code under test waits for something that can never happen
             obs["deadlock"] = [x for x in dl if "run_case" not in x]
